@@ -213,7 +213,7 @@ PROPS['C19'] = dict(
     not_covered=['interleavings themselves', 'state inside dependencies (nom-packrat, nom-recursive, nom-tracable)', 'concurrent modification of the files being read'],
 )
 KANI = dict(module='vx.kanieng', tier='thorough')
-PROPS['C03']['engines'] = [KANI]
+PROPS['C03']['engines'] = [KANI, dict(module='vx.boundeng')]
 PROPS['C18']['engines'] = [REPLAY]
 PROPS['C05']['engines'] = [dict(module='vx.boundeng')]
 PROPS['C04']['engines'] = [dict(module='gvc.engine', args=dict(analyses=('frame',))), REPLAY]
